@@ -64,6 +64,11 @@ func c02VacuityGuard(t *testing.T) {
 func (s *c02State) honest(refusedBy string) {
 	if refusedBy != "" {
 		s.x.Class("honest-refused:" + refusedBy)
+		if s.fx != nil {
+			for _, l := range s.legs() {
+				s.x.Classf("honest-refused-shape:%s,sub_req=%s,descriptors=%d,layout=%s,%s,%s", refusedBy, l.PD.SubReq, len(l.PD.Descs), s.c.Layout, s.c.VPFmt, s.c.VCFmt)
+			}
+		}
 	}
 	if s.x.IsReplay || !s.plainIDs {
 		return
@@ -133,6 +138,8 @@ type c02State struct {
 	reqN   int
 	// plainIDs: no claim id anywhere in the policy is named like a member of the introspection response or another RFC 7662 name
 	plainIDs bool
+	// clockAdvanced: a history op has simulated the passage of time (see replayAfter)
+	clockAdvanced bool
 }
 
 func (s *c02State) nonce() string {
